@@ -16,12 +16,27 @@ CONST_NAMES = ['pi', 'fpiInv', 'piSqrt', 'hpiInv']
 
 
 class StandIns:
-    def __init__(self, rng):
+    """Random rational stand-ins (p0 + p1 u + p2 u^2)/(q0 + u^2), strictly positive (p1^2 < 4 p0 p2) so that the code
+    under test never divides by zero.  With laws=True the algebraic laws the closed forms rely on hold exactly:
+    erf odd, erfc = 1 - erf, FPI_INV = 1/(4 pi), HPI_INV = 1/(192 pi)."""
+    def __init__(self, rng, laws=False):
         self.funs = {}
         for n in FUN_NAMES:
-            self.funs[n] = (F(rng.randint(-9, 9), rng.randint(1, 5)), F(rng.randint(-9, 9), rng.randint(1, 5)),
-                            F(rng.randint(1, 9), rng.randint(1, 5)), F(rng.randint(1, 9), rng.randint(1, 3)))
+            while True:
+                p0 = F(rng.randint(1, 9), rng.randint(1, 5))
+                p2 = F(rng.randint(1, 9), rng.randint(1, 5))
+                p1 = F(rng.randint(-9, 9), rng.randint(1, 5))
+                if p1 * p1 < 4 * p0 * p2:
+                    break
+            self.funs[n] = (p0, p1, p2, F(rng.randint(1, 9), rng.randint(1, 3)))
         self.consts = {n: F(rng.randint(1, 40), rng.randint(1, 40)) for n in CONST_NAMES}
+        if laws:
+            q0 = self.funs['erf'][3]
+            p1 = F(rng.randint(1, 9), rng.randint(1, 5))
+            self.funs['erf'] = (F(0), p1, F(0), q0)
+            self.funs['erfc'] = (q0, -p1, F(1), q0)
+            self.consts['fpiInv'] = 1 / (4 * self.consts['pi'])
+            self.consts['hpiInv'] = 1 / (192 * self.consts['pi'])
 
     def apply(self, name, u):
         p0, p1, p2, q0 = self.funs[name]
